@@ -57,7 +57,7 @@ func ZZ_C08_plan_within_quota() {
 	// existing interfaces: at most as many per type as the flavor declares
 	node.Status.NetworkInterfaces = map[string]*networkv1beta1.NetworkInterface{}
 	exist := zz.Fork("existing", 2) // 0..1 existing interfaces (two did not finish in the thorough budget)
-	maxIPs := 2 // addresses per family on an existing interface: 0..1 (0..2 did not finish in the thorough budget with two interfaces)
+	maxIPs := 2                     // addresses per family on an existing interface: 0..1 (0..2 did not finish in the thorough budget with two interfaces)
 	haveSec, haveTrunk := 0, 0
 	for i := 0; i < exist; i++ {
 		is := strconv.Itoa(i)
